@@ -319,9 +319,14 @@ func (e *Env) openFile(name string, flag int) Value {
 			return Tuple{(*Value)(nil), e.errNotExist()}
 		}
 		e.beforeMutation("create " + p)
-		n = &FSNode{file: e.newFile(), mode: 0644}
-		e.nodes[p] = n
-		e.log(FSOp{Kind: "create", Path: p})
+		// open(O_CREATE) is atomic: another thread may have created the file at the switch point above
+		if n2, ok := e.nodes[p]; ok {
+			n = n2
+		} else {
+			n = &FSNode{file: e.newFile(), mode: 0644}
+			e.nodes[p] = n
+			e.log(FSOp{Kind: "create", Path: p})
+		}
 	} else if n.isDir {
 		if flag&(oWRONLY|oRDWR) != 0 {
 			return Tuple{(*Value)(nil), e.errVal("is a directory")}
